@@ -147,11 +147,22 @@ func (w *World) ack(p int, op operation.Operation, err error) {
 		return
 	}
 	w.printf("ack %d %s\n", p, w.name(op.GetEntry()))
+	w.waitPub(p, w.sentMark, w.expectPub)
+}
+
+// beforeWrite records whether the write will be announced (the store publishes only when the topic has peers).
+func (w *World) beforeWrite(p int) {
+	w.sentMark = w.net.SentCount()
+	w.expectPub = w.hasTopicPeers(p)
 }
 
 func (w *World) execOp(toks []string) error {
 	ctx, cancel := context.WithTimeout(w.ctx, 30*time.Second)
 	defer cancel()
+	switch toks[0] {
+	case "put", "del", "add", "docput", "docdel", "docputall":
+		w.beforeWrite(atoi(toks[1]))
+	}
 	switch toks[0] {
 	case "put", "del":
 		p := atoi(toks[1])
@@ -339,5 +350,8 @@ func (w *World) resolveAt(p int, tok string) string {
 }
 
 func (w *World) execOpExtra(ctx context.Context, toks []string) error {
+	if ok, err := w.execNetOp(ctx, toks); ok || err != nil {
+		return err
+	}
 	return fmt.Errorf("unknown op %s", toks[0])
 }
